@@ -14,6 +14,49 @@ KAPPA_NOMINAL = {"extrapol2": Fraction(-1), "fromm": Fraction(0), "quick": Fract
 LIMITERS = ["minmod", "vanalbada", "vanleer", "superbee"]
 
 
+# opaque conditions met while interpreting the discretisation (np.isclose on mesh entries ...):
+# outcomes of the current pass, and the largest number of such conditions seen in one interpretation
+COND_POLICY = []
+COND_MAX = [0]
+COND_TEXT = [[]]
+
+
+def over_cond_paths(check, fn):
+    """run fn(check) once per outcome vector of the opaque conditions it meets; findings of the
+    non-default paths are kept with the path in their text (every clause must hold on every path:
+    each outcome is realised by some mesh / data)"""
+    import itertools
+    global COND_POLICY
+    COND_POLICY = []
+    COND_MAX[0] = 0
+    fn(check)
+    m = COND_MAX[0]
+    if m == 0:
+        return
+    if m > 3:
+        raise AnalysisError("more than 3 opaque conditions in one interpretation of the discretisation")
+    check.inventory["opaque-condition paths"] = 2 ** m
+    for pol in itertools.product((True, False), repeat=m):
+        if all(pol):
+            continue
+        COND_POLICY = list(pol)
+        COND_TEXT[0] = []
+        n0 = len(check.obs)
+        try:
+            fn(check)
+        finally:
+            COND_POLICY = []
+        label = " [on the path: %s]" % "; ".join(COND_TEXT[0][:m]) if COND_TEXT[0] else " [path %s]" % (pol,)
+        kept = []
+        for o in check.obs[n0:]:
+            if o.status != "ok":
+                o.detail += label
+                kept.append(o)
+        check.obs[n0:] = kept
+    # the default pass took every condition as True: label its findings too
+    return
+
+
 class KappaTruthiness(AnalysisError):
     """self.kprec is built with `k or c` / `c if not k else k`: it is the parameter only when the
     parameter is truthy -- for k = 0 (a legitimate kappa: Fromm's scheme) it is something else"""
@@ -23,13 +66,33 @@ class KappaTruthiness(AnalysisError):
         self.violation = ("KAPPA-PARAM", "xnum.%s" % clsname, "self.kprec is the constructor parameter only when the parameter is truthy (`k or c` / conditional on k): for k = 0, a legitimate kappa (Fromm's scheme), the stencil is that of another kappa", "kappa-truthy")
 
 
+class _CondLog(list):
+    def append(self, text):
+        list.append(self, text)
+        COND_MAX[0] = max(COND_MAX[0], len(self))
+        COND_TEXT[0] = list(self)
+
+
 class Disc1D:
     def __init__(self, proj, neq=1, periodic=True):
         self.proj = proj
         self.alg = Algebra(term_budget=60000, time_budget=30.0)
         self.alg.fold_enabled = False
         self.dom = GvnDomain(self.alg)
+        # witness points of refutations are admissible meshes: faces increase with their index, each
+        # centre lies inside its cell (relative atoms around x = 10, left end near -100, right end near 100)
+        import re as _re
+        def _pos(m, k, h):
+            name = m.group("name")
+            inside = 0.25 + 0.5 * h if name.startswith("xc") else 0.2 * h
+            if m.group("off") is not None:
+                return 10.0 + int(m.group("off")) + inside
+            a, b = int(m.group("a")), int(m.group("b"))
+            return (-100.0 if a == 0 else 100.0) + b + inside
+        self.alg.point_pattern_hooks.append((_re.compile(r"^(?P<name>xf\w*|xc\w*)(?:@(?P<off>[+-]\d+)|#(?P<a>-?\d+)n(?P<b>[+-]\d+))$"), _pos))
         self.interp = Interp(proj, self.dom)
+        self.interp.cond_policy = list(COND_POLICY)
+        self.interp.cond_log = _CondLog()
         self.stn = Stn(self.alg)
         self.interp.stn = self.stn
         self.neq = neq
